@@ -65,7 +65,7 @@ Proof.
 Qed.
 
 Lemma lookup_filter_fst (f : Z -> bool) c l :
-  lookup c (filter (fun ct => f (fst ct)) l) = if f c then lookup c l else None.
+  lookup c (filter (fun ct : coord * trie => f (fst ct)) l) = if f c then lookup c l else None.
 Proof.
   induction l as [|[c' t'] l IH]; cbn [filter lookup fst]; [destruct (f c); reflexivity|].
   destruct (f c') eqn:E'.
@@ -76,24 +76,24 @@ Qed.
 Lemma lookup_bounds_split_in u bs l t : lookup u (bounds_split bs l) = Some t -> In u bs.
 Proof.
   induction bs as [|b bs IH]; cbn [bounds_split]; [discriminate|].
-  destruct (filter (fun ct => in_window b bs (fst ct)) l).
+  destruct (filter (fun ct : coord * trie => in_window b bs (fst ct)) l).
   - intros H. right. apply IH. exact H.
   - cbn [lookup]. destruct (Z.eqb_spec u b) as [->|_]; [intros _; left; reflexivity|]. intros H. right. apply IH. exact H.
 Qed.
 
 Lemma lookup_bounds_split u bs l : NoDup bs ->
   lookup u (bounds_split bs l) =
-  match filter (fun ct => window bs u (fst ct)) l with [] => None | sel => Some (Node sel) end.
+  match filter (fun ct : coord * trie => window bs u (fst ct)) l with [] => None | sel => Some (Node sel) end.
 Proof.
   induction bs as [|b bs IH]; intros Hnd; cbn [bounds_split window].
   - cbn [lookup]. induction l as [|ct l IHl]; [reflexivity|exact IHl].
   - apply NoDup_cons_iff in Hnd as [Hnotin Hnd]. specialize (IH Hnd).
     destruct (Z.eqb_spec u b) as [->|Hne].
-    + destruct (filter (fun ct => in_window b bs (fst ct)) l) as [|x sel] eqn:E.
+    + destruct (filter (fun ct : coord * trie => in_window b bs (fst ct)) l) as [|x sel] eqn:E.
       * destruct (lookup b (bounds_split bs l)) as [t|] eqn:El; [|reflexivity].
         exfalso. apply Hnotin. eapply lookup_bounds_split_in. exact El.
       * cbn [lookup]. rewrite Z.eqb_refl. reflexivity.
-    + destruct (filter (fun ct => in_window b bs (fst ct)) l) as [|x sel]; [exact IH|].
+    + destruct (filter (fun ct : coord * trie => in_window b bs (fst ct)) l) as [|x sel]; [exact IH|].
       cbn [lookup]. destruct (Z.eqb_spec u b); [contradiction|]. exact IH.
 Qed.
 
@@ -117,14 +117,149 @@ Proof.
     rewrite Z.eqb_eq. split; [intros H; injection H as ->; reflexivity|intros ->; reflexivity]. }
   assert (Hc : collapse r r0 p r = p r0) by (unfold collapse, upd; rewrite String.eqb_refl; reflexivity).
   rewrite Hc.
-  assert (Hd : match filter (fun ct => window bs (p r1) (fst ct)) l with
+  assert (Hd : match filter (fun ct : coord * trie => window bs (p r1) (fst ct)) l with
                | [] => 0 | sel => den (r0 :: rs) (Node sel) p end =
-               den (r0 :: rs) (Node (filter (fun ct => window bs (p r1) (fst ct)) l)) p).
-  { destruct (filter (fun ct => window bs (p r1) (fst ct)) l); reflexivity. }
-  transitivity (den (r0 :: rs) (Node (filter (fun ct => window bs (p r1) (fst ct)) l)) p).
-  { destruct (filter (fun ct => window bs (p r1) (fst ct)) l); reflexivity. }
+               den (r0 :: rs) (Node (filter (fun ct : coord * trie => window bs (p r1) (fst ct)) l)) p).
+  { destruct (filter (fun ct : coord * trie => window bs (p r1) (fst ct)) l); reflexivity. }
+  transitivity (den (r0 :: rs) (Node (filter (fun ct : coord * trie => window bs (p r1) (fst ct)) l)) p).
+  { destruct (filter (fun ct : coord * trie => window bs (p r1) (fst ct)) l); reflexivity. }
   clear Hd. cbn [den]. rewrite (lookup_filter_fst (window bs (p r1))). rewrite Hw.
   destruct (occ_consistent bs r1 r0 p); [|reflexivity].
   destruct (lookup (p r0) l) as [t'|]; [|reflexivity].
   symmetry. apply den_upd_notin. exact Hnotin.
+Qed.
+
+(* ---------- 2. the leader: chunk starts ---------- *)
+Lemma starts_aux_in n k l x : In x (starts_aux n k l) -> In x (keys l).
+Proof.
+  revert k; induction l as [|ct l IH]; intros k H; cbn [starts_aux] in H; [destruct H|].
+  destruct k as [|k'].
+  - destruct H as [<-|H]; [left; reflexivity|right; eapply IH; exact H].
+  - right. eapply IH. exact H.
+Qed.
+
+Lemma starts_aux_sorted n k l : StronglySorted Z.lt (keys l) -> StronglySorted Z.lt (starts_aux n k l).
+Proof.
+  revert k; induction l as [|ct l IH]; intros k Hs; cbn [starts_aux]; [constructor|].
+  cbn [keys map] in Hs. inversion Hs as [|? ? Hs' Hall]; subst.
+  destruct k as [|k']; [|apply IH; exact Hs'].
+  constructor; [apply IH; exact Hs'|].
+  apply Forall_forall. intros x Hx. apply starts_aux_in in Hx. rewrite Forall_forall in Hall. apply Hall. exact Hx.
+Qed.
+
+(* the boundaries are increasing *)
+Lemma chunk_starts_sorted n l : StronglySorted Z.lt (keys l) -> StronglySorted Z.lt (chunk_starts n l).
+Proof. apply starts_aux_sorted. Qed.
+
+(* the first boundary is the first coordinate of the leader's fiber *)
+Lemma chunk_starts_head n ct l : chunk_starts n (ct :: l) = fst ct :: starts_aux n (Nat.pred n) l.
+Proof. reflexivity. Qed.
+
+(* every coordinate of the leader's fiber has a partition *)
+Lemma chunk_starts_covers n l c : StronglySorted Z.lt (keys l) -> In c (keys l) -> part_of (chunk_starts n l) c <> None.
+Proof.
+  intros Hs Hin H. apply part_of_none_iff in H. destruct l as [|ct l]; [destruct Hin|].
+  rewrite chunk_starts_head in H. cbn [keys map] in Hs, Hin. inversion Hs as [|? ? _ Hall]; subst.
+  destruct Hin as [<-|Hin]; [lia|]. rewrite Forall_forall in Hall. specialize (Hall c Hin). lia.
+Qed.
+
+Lemma starts_aux_skipn n k l : starts_aux n k l = starts_aux n 0 (skipn k l).
+Proof.
+  revert k; induction l as [|ct l IH]; intros k; [destruct k; reflexivity|].
+  destruct k as [|k']; [reflexivity|]. cbn [starts_aux skipn]. apply IH.
+Qed.
+
+Lemma chunk_starts_step n ct l : (0 < n)%nat ->
+  chunk_starts n (ct :: l) = fst ct :: chunk_starts n (skipn n (ct :: l)).
+Proof.
+  intros Hn. destruct n as [|m]; [lia|]. rewrite chunk_starts_head. cbn [Nat.pred skipn].
+  rewrite starts_aux_skipn. reflexivity.
+Qed.
+
+Lemma SSorted_app_inv (a b : list Z) : StronglySorted Z.lt (a ++ b) ->
+  StronglySorted Z.lt a /\ StronglySorted Z.lt b /\ forall x y, In x a -> In y b -> x < y.
+Proof.
+  induction a as [|x0 a IH]; cbn [app]; intros H.
+  - split; [constructor|]. split; [exact H|]. intros x y [].
+  - inversion H as [|? ? Hs Hall]; subst. destruct (IH Hs) as [Ha [Hb Hab]]. rewrite Forall_forall in Hall.
+    split; [constructor; [exact Ha|]|split; [exact Hb|]].
+    + apply Forall_forall. intros y Hy. apply Hall. apply in_or_app. left. exact Hy.
+    + intros x y [<-|Hx] Hy; [apply Hall; apply in_or_app; right; exact Hy|apply Hab; assumption].
+Qed.
+
+Lemma filter_all {A} (f : A -> bool) l : (forall x, In x l -> f x = true) -> filter f l = l.
+Proof.
+  induction l as [|x l IH]; intros H; [reflexivity|]. cbn [filter]. rewrite (H x (or_introl eq_refl)).
+  f_equal. apply IH. intros y Hy. apply H. right. exact Hy.
+Qed.
+Lemma filter_none {A} (f : A -> bool) l : (forall x, In x l -> f x = false) -> filter f l = [].
+Proof.
+  induction l as [|x l IH]; intros H; [reflexivity|]. cbn [filter]. rewrite (H x (or_introl eq_refl)).
+  apply IH. intros y Hy. apply H. right. exact Hy.
+Qed.
+
+(* elements below every boundary are dropped *)
+Lemma bounds_split_drop_below bs (pre l : list (coord * trie)) :
+  (forall x b, In x pre -> In b bs -> fst x < b) -> bounds_split bs (pre ++ l) = bounds_split bs l.
+Proof.
+  induction bs as [|b bs IH]; intros H; [reflexivity|]. cbn [bounds_split].
+  rewrite filter_app. rewrite (filter_none _ pre).
+  2:{ intros x Hx. cbv beta. unfold in_window. specialize (H x b Hx (or_introl eq_refl)). destruct (Z.leb_spec b (fst x)); [lia|reflexivity]. }
+  cbn [app]. rewrite IH by (intros x b' Hx Hb'; apply H; [exact Hx|right; exact Hb']). reflexivity.
+Qed.
+
+(* for the LEADER, cutting at its own chunk starts is splitEqual(n): consecutive chunks of n elements *)
+Lemma leader_equal_split n : (0 < n)%nat -> forall fuel l, (List.length l < fuel)%nat -> StronglySorted Z.lt (keys l) ->
+  bounds_split (chunk_starts n l) l = equal_split fuel n l.
+Proof.
+  intros Hn. induction fuel as [|f IH]; intros l Hlen Hs; [lia|].
+  destruct l as [|ct l']; [reflexivity|]. set (l := ct :: l') in *.
+  cbn [equal_split]. fold l. unfold l at 1. rewrite (chunk_starts_step n ct l' Hn). fold l.
+  set (bs' := chunk_starts n (skipn n l)).
+  assert (Hsplit : l = firstn n l ++ skipn n l) by (symmetry; apply firstn_skipn).
+  assert (Hs2 : StronglySorted Z.lt (keys (firstn n l) ++ keys (skipn n l))).
+  { unfold keys. rewrite <- map_app, firstn_skipn. exact Hs. }
+  destruct (SSorted_app_inv _ _ Hs2) as [Hsa [Hsb Hab]].
+  assert (Hhd : forall x, In x l -> fst ct <= fst x).
+  { intros x [<-|Hx]; [lia|]. unfold l in Hs. cbn [keys map] in Hs. inversion Hs as [|? ? _ Hall]; subst.
+    rewrite Forall_forall in Hall. specialize (Hall (fst x) (in_map fst _ _ Hx)). lia. }
+  assert (Hsel : filter (fun x : coord * trie => in_window (fst ct) bs' (fst x)) l = firstn n l).
+  { rewrite Hsplit at 1. rewrite filter_app. rewrite filter_all, filter_none; [apply app_nil_r| |].
+    - intros x Hx. cbv beta. unfold in_window, bs'. destruct (skipn n l) as [|y ys] eqn:Esk; [destruct Hx|].
+      unfold chunk_starts. cbn [starts_aux].
+      assert (fst y <= fst x).
+      { destruct Hx as [<-|Hx]; [lia|]. cbn [keys map] in Hsb. inversion Hsb as [|? ? _ Hall]; subst.
+        rewrite Forall_forall in Hall. specialize (Hall (fst x) (in_map fst _ _ Hx)). lia. }
+      destruct (Z.ltb_spec (fst x) (fst y)); [lia|]. apply andb_false_r.
+    - intros x Hx. cbv beta. unfold in_window.
+      assert (Hx' : In x l) by (rewrite Hsplit; apply in_or_app; left; exact Hx).
+      specialize (Hhd x Hx'). destruct (Z.leb_spec (fst ct) (fst x)); [|lia]. cbn [andb].
+      destruct bs' as [|b' bs''] eqn:Eb; [reflexivity|].
+      assert (Hb' : In b' (keys (skipn n l))).
+      { apply (starts_aux_in n 0). fold (chunk_starts n (skipn n l)). fold bs'. rewrite Eb. left. reflexivity. }
+      specialize (Hab (fst x) b' (in_map fst _ _ Hx) Hb'). destruct (Z.ltb_spec (fst x) b'); [reflexivity|lia]. }
+  cbn [bounds_split]. rewrite Hsel.
+  assert (Hne : firstn n l <> []) by (destruct n; [lia|discriminate]).
+  assert (Hrest : bounds_split bs' l = equal_split f n (skipn n l)).
+  { rewrite Hsplit at 1. rewrite bounds_split_drop_below.
+    - apply IH; [|exact Hsb]. rewrite skipn_length. unfold l in *. cbn [List.length] in *. lia.
+    - intros x b Hx Hb. apply Hab; [apply in_map; exact Hx|]. apply (starts_aux_in n 0). exact Hb. }
+  rewrite Hrest. destruct (firstn n l); [contradiction|reflexivity].
+Qed.
+
+(* ... which is Rt.chunks, the function the interpreter uses for splitEqual *)
+Definition head_key (ch : list (coord * trie)) : Z := match ch with ct :: _ => fst ct | [] => 0 end.
+Lemma equal_split_chunks n : (0 < n)%nat -> forall fuel l,
+  equal_split fuel n l = map (fun ch => (head_key ch, Node ch)) (Rt.chunks fuel n l).
+Proof.
+  intros Hn. induction fuel as [|f IH]; intros l; [reflexivity|].
+  destruct l as [|ct l']; [reflexivity|]. cbn [equal_split Rt.chunks map]. rewrite IH.
+  destruct n as [|m]; [lia|]. reflexivity.
+Qed.
+
+Theorem leader_bounds_split_chunks : forall n l, (0 < n)%nat -> StronglySorted Z.lt (keys l) ->
+  bounds_split (chunk_starts n l) l = map (fun ch => (head_key ch, Node ch)) (Rt.chunks (S (List.length l)) n l).
+Proof.
+  intros n l Hn Hs. rewrite (leader_equal_split n Hn (S (List.length l)) l (Nat.lt_succ_diag_r _) Hs).
+  apply equal_split_chunks. exact Hn.
 Qed.
